@@ -166,7 +166,9 @@ CHECKS = {
         "content, overlap, default fallback), exact replay of the dumped page queues around every delete/destroy against the model, and the "
         "scheduler harness (mode heap: mi_heap_delete / mi_heap_collect while other virtual threads free into the heap).",
    note="Deleting a heap that is incompatible with the backing heap (arena-bound) is modelled as the code does it (pages become heap-less); "
-        "freeability there is REFUTED (C10_delete_incompatible_refuted; known finding impl:heap-delete-incompatible, corpus/C10). Block contents and "
+        "freeability there is REFUTED (C10_delete_incompatible_refuted; known finding impl:heap-delete-incompatible, corpus/C10). Second known finding "
+        "impl:destroy-frees-adopted: a destroyable heap adopts abandoned pages of terminated threads and mi_heap_destroy frees their live blocks "
+        "(the sequential heap model has no adoption; corpus/C10). Block contents and "
         "segments are other layers. The concurrent theorems are about the model of Model/TFree.v; its tie to the code is the scheduler harness "
         "oracle and a schedule-lockstep replay (mode lockheap: every atomic access of mi_heap_new / mi_heap_delete / mi_heap_collect and of the "
         "concurrent remote frees must be a step of the model); mi_heap_destroy and the backing-heap delete at thread exit are not in that program.",
@@ -175,14 +177,20 @@ CHECKS = {
  "C15": dict(
    text="Machine-checked proof (Coq): the suitability invariant (every page of a heap lies in a segment whose memid is suitable for the heap's arena; "
         "arena segments lie inside the arena area) is preserved by every hand-out path (span reuse, fresh segment, reclaim-on-free, try_reclaim, "
-        "reclaim_all, collect, thread exit, heap delete) for all histories with tag-0 heaps; corollaries bound_heap_inside_arena, "
-        "no_os_fallback_for_bound_heap, exclusive_stays_private, managed_region_bounds for all start/size. Partial in the heap tag: refuted for "
-        "mi_heap_new_ex tags (known finding impl:reclaim-by-tag-exclusive). The pre-repair reclaim_all is shown to break privacy (Example). Tie: exact "
-        "function records of mi_manage_os_memory_ex2 arithmetic and the suitability functions, and an address oracle on seeded real histories with "
-        "exclusive/shared arenas over misaligned regions, bound and unbound heaps, arena exhaustion, pthread exit, collects, reclaim-on-free.",
-   note="Sequential model; arena claim and span-queue order are oracles; claims inside bitmap fields rely on C14; blocks > 64 MiB from bound heaps "
-        "return NULL (C14 finding).",
-   technique="Coq invariant by induction over operations + exact function differential + address oracle on seeded real histories with thread exit",
+        "reclaim_all, collect, thread exit, heap delete): for EVERY step and every heap tag under the single hypothesis that the heap adopting "
+        "in that step is tag-safe (C15_bound_inv_preserved_adopter_partial; at full strength for the 13 non-adopting operations), and that "
+        "hypothesis cannot be weakened (C15_tag_safe_is_necessary): the gap to the full statement is exactly the known finding "
+        "impl:reclaim-by-tag-exclusive. Corollaries bound_heap_inside_arena, no_os_fallback_for_bound_heap, exclusive_stays_private, "
+        "managed_region_bounds for all start/size; history versions. The pre-repair reclaim_all is shown to break privacy (Example). Tie: exact "
+        "function records of mi_manage_os_memory_ex2 arithmetic and the suitability functions; an address oracle on seeded real histories with "
+        "exclusive/shared arenas over misaligned regions, bound and unbound heaps, arena exhaustion, pthread exit, collects, reclaim-on-free; and "
+        "an OP-LEVEL TRACE TIE: after every API call of PRNG histories (several arenas, bound/tagged/destroyable heaps, worker threads that exit "
+        "with live blocks, cross-thread and abandoned frees, collects, heap delete/destroy) the real state is dumped (per segment memid, owner, "
+        "pages with heap and tag, free spans; per thread the heap list), the model's invariant is evaluated on it and the transition must be "
+        "explained by operations of Model/Bind.v with choices reconstructed from the dumps.",
+   note="Sequential model (one thread inside the allocator at a time in the trace tie); choices are existential; arena claim and span-queue order "
+        "are oracles; claims inside bitmap fields rely on C14; blocks > 64 MiB from bound heaps return NULL (C14 finding).",
+   technique="Coq invariant by induction over operations + exact function differential + op-level trace tie (dump/abstraction/explained transition) + address oracle on seeded real histories with thread exit",
    design="3/C15"),
  "C09": dict(
    text="Machine-checked proof (Coq) on an interleaving model of abandonment/adoption (one transition per atomic access; unbounded threads, segments, "
